@@ -3,7 +3,7 @@
     the model performs the same operations in the same order), and the backend dispatch. *)
 From Coq Require Import List Arith ZArith NArith Lia Bool String Floats.
 Import ListNotations.
-Require Import Clarabel.Base.Ops Clarabel.Qdldl.Model Clarabel.Qdldl.ModelDriver Clarabel.Qdldl.Check.
+Require Import Clarabel.Base.Ops Clarabel.Base.Dyadic Clarabel.Qdldl.Model Clarabel.Qdldl.ModelDriver Clarabel.Qdldl.Check.
 Local Open Scope nat_scope.
 
 Definition feq (a b : float) : bool := PrimFloat.eqb a b || (PrimFloat.is_nan a && PrimFloat.is_nan b).
@@ -56,3 +56,174 @@ Definition c_dispatch (faer : bool) (s : string) (ndiv nmult lnz : float) (valid
              | DPanic, 2%N => true
              | _, _ => false
              end)).
+
+(** * Two-level tie (round 4)
+    LEVEL B (binding): statements about the Rust outputs that do not depend on the order in which
+    sums are evaluated: the backend factor is an LDL' of the shifted K to backward-stable accuracy
+    (exact dyadic arithmetic), the first solve reproduces b likewise, pivot signs / regularisation
+    count / inertia, the shifted values are K +- eps, eps is const + prop*max|diag| (to closeF),
+    the recorded residual norms are truthful (exact recomputation from the recorded candidates),
+    every decision of the loop is the one the code's thresholds dictate FOR THE RECORDED NORMS,
+    the trace has the right shape, the returned x is the right recorded candidate, success iff all
+    recorded norms finite, K restored.
+    LEVEL A (information, code 2): bitwise identity with the transcribed-order model [c_driver]. *)
+
+Definition fnats := nats.
+Definition is_fin_f := PrimFloat.is_finite.
+
+(** ** the refinement trace replayed on the RECORDED norms *)
+Fixpoint trace_go (fuel : nat) (tol stopratio last : float) (steps : list (ir_step (T:=float))) : bool :=
+  match steps with
+  | [] => (fuel =? 0) || PrimFloat.leb last tol
+  | s :: rest =>
+      match fuel with
+      | 0 => false
+      | S f =>
+          negb (PrimFloat.leb last tol) &&
+          match s with
+          | IrNonFinite nrm => negb (is_fin_f nrm) && match rest with [] => true | _ => false end
+          | IrAccept nrm =>
+              is_fin_f nrm && negb (PrimFloat.ltb (PrimFloat.div last nrm) stopratio)
+              && trace_go f tol stopratio nrm rest
+          | IrStopAccept nrm =>
+              is_fin_f nrm && PrimFloat.ltb (PrimFloat.div last nrm) stopratio
+              && PrimFloat.ltb 1%float (PrimFloat.div last nrm) && match rest with [] => true | _ => false end
+          | IrStopReject nrm =>
+              is_fin_f nrm && PrimFloat.ltb (PrimFloat.div last nrm) stopratio
+              && negb (PrimFloat.ltb 1%float (PrimFloat.div last nrm)) && match rest with [] => true | _ => false end
+          end
+      end
+  end.
+Definition step_is_nonfinite (s : ir_step (T:=float)) : bool := match s with IrNonFinite _ => true | _ => false end.
+Definition step_is_accept (s : ir_step (T:=float)) : bool := match s with IrAccept _ => true | _ => false end.
+Definition step_normf (s : ir_step (T:=float)) : float :=
+  match s with IrNonFinite x | IrAccept x | IrStopAccept x | IrStopReject x => x end.
+(** index of the candidate that must be returned *)
+Definition final_index (steps : list (ir_step (T:=float))) : nat :=
+  List.length (filter step_is_accept steps)
+  + match rev steps with IrStopAccept _ :: _ => 1 | _ => 0 end.
+
+Definition trace_ok (reltol abstol stopratio : float) (maxiter : nat) (normb norm0 : float)
+           (steps : list (ir_step (T:=float))) (solve_ok : bool)
+           (cands : list (list float)) (xfinal : list float) : bool :=
+  let tol := PrimFloat.add abstol (PrimFloat.mul reltol normb) in
+  if negb (is_fin_f norm0) then
+    match steps with [] => negb solve_ok | _ => false end
+  else
+    trace_go maxiter tol stopratio norm0 steps
+    && Bool.eqb solve_ok (negb (existsb step_is_nonfinite steps))
+    && (List.length cands =? S (List.length steps))
+    && (if solve_ok then flist_eq xfinal (nth (final_index steps) cands []) else true).
+
+(** ** truthful norms: | recorded - exact | <= g * max_i (|b_i| + sum_j |K_ij||x_j|), exact in dyadics *)
+Definition exact_resid (n : nat) (Kcp Krv : list nat) (Knz b x : list dy) : dy * dy :=
+  fold_left (fun acc i =>
+               let ai := map (fun j => uget Kcp Krv Knz i j) (seq 0 n) in
+               let r := dabs (dsub (nth i b d0) (ddot ai x)) in
+               let s := dadd (dabs (nth i b d0)) (ddot (map dabs ai) (map dabs x)) in
+               (dmax (fst acc) r, dmax (snd acc) s))
+            (seq 0 n) (d0, d0).
+Definition norm_truthful (c : Z) (n : nat) (Kcp Krv : list nat) (Knz b x : list dy) (rec : dy) : bool :=
+  let '(r, s) := exact_resid n Kcp Krv Knz b x in
+  dleb (dabs (dsub rec r)) (dmul (D (c * Z.of_nat (n + 2)) (-53)) s).
+
+(** ** pivots *)
+Definition pivots_ok (dyn_enable : bool) (eps delta : float) (Dg : list float) (signs : list Z)
+           (regcount pos : nat) : bool :=
+  let sf k := match nth k signs 1%Z with 1%Z => 1%float | _ => (-1)%float end in
+  let ks := seq 0 (List.length Dg) in
+  let perturbed k := feq (nth k Dg 0%float) (PrimFloat.mul delta (sf k)) in
+  (pos =? List.length (filter (fun k => PrimFloat.ltb 0%float (nth k Dg 0%float)) ks))
+  && (if dyn_enable then
+        forallb (fun k => perturbed k || negb (PrimFloat.ltb (PrimFloat.mul (nth k Dg 0%float) (sf k)) eps)) ks
+        && (regcount <=? List.length (filter perturbed ks))
+      else regcount =? 0).
+
+(** | PK_sP' - LDL' | entrywise as in [chk_ldl], except on the diagonal entries listed in [skip]
+    (pivots replaced by the dynamic regularisation) *)
+Definition chk_ldl_skip (c : Z) (n : N) (perm Acp Arv : list N) (Anz : list dy)
+           (Lp Li : list N) (Lx Dg : list dy) (skip : list bool) : N :=
+  let n' := N.to_nat n in
+  let p := nats perm in
+  let Acp' := nats Acp in let Arv' := nats Arv in let Lp' := nats Lp in let Li' := nats Li in
+  let rows := map (lrow n' Lp' Li' Lx) (seq 0 n') in
+  let g := D (c * Z.of_N n) (-53) in
+  ofb (forallb (fun i =>
+        forallb (fun j =>
+          if (i =? j) && nth i skip false then true else
+          let ri := nth i rows [] in let rj := nth j rows [] in
+          let terms := map (fun t => dmul (dmul (fst (fst t)) (snd t)) (snd (fst t))) (combine (combine ri rj) Dg) in
+          dleb (dabs (dsub (uget Acp' Arv' Anz (nth i p 0) (nth j p 0)) (dsum terms))) (dmul g (dsum (map dabs terms))))
+          (seq i (n' - i))) (seq 0 n')).
+
+(** ** the shifted values held by the backend: K +- eps on diag_full, K elsewhere (float add) *)
+Definition shifted_ok (static_enable : bool) (Knz Ksnz : list float) (diag : list nat) (dsigns : list Z) (eps : float) : bool :=
+  let expected :=
+    if static_enable then
+      fold_left (fun v td => let '(idx, s) := td in
+                             upd v idx (if Z.eqb s 1 then PrimFloat.add (nth idx Knz 0%float) eps
+                                        else PrimFloat.sub (nth idx Knz 0%float) eps))
+                (combine diag dsigns) Knz
+    else Knz in
+  flist_eq expected Ksnz.
+
+Record drv_sem : Type := mkDS2
+  { s_Ksnz_f : list float; s_Ksnz : list dy; s_Knz : list dy;             (* shifted (f, dy), unshifted (dy) *)
+    s_Lp : list N; s_Li : list N; s_Lx : list dy; s_D : list dy; s_Df : list float;
+    s_psigns : list Z; s_reg : N; s_pos : N;
+    s_b : list dy; s_cands_f : list (list float); s_cands : list (list dy);  (* x0 :: candidates *)
+    s_norms : list dy;                                                      (* norm0 :: step norms, when finite *)
+    s_normb : float; s_restored : bool }.
+
+Definition c_driver_sem (K : spm (T:=float)) (dsigns : list Z) (diag perm : list N)
+           (dyn_enable : bool) (dyn_eps dyn_delta : float)
+           (static_enable : bool) (rconst rprop : float)
+           (ir_enable : bool) (reltol abstol stopratio : float) (maxiter : N)
+           (out : drv_out) (sem : drv_sem) : N :=
+  let n := sn K in
+  let nN := N.of_nat n in
+  let Kcp := map N.of_nat (colptr K) in let Krv := map N.of_nat (rowval K) in
+  let diag' := nats diag in
+  let diag_kkt := map (fun idx => nth idx (nzval K) 0%float) diag' in
+  let eps_model := compute_regularizer OpsF FlF diag_kkt rconst rprop in
+  let regc := N.to_nat (s_reg sem) in
+  let sf k := match nth k (s_psigns sem) 1%Z with 1%Z => 1%float | _ => (-1)%float end in
+  let skip := map (fun k => feq (nth k (s_Df sem) 0%float) (PrimFloat.mul dyn_delta (sf k))) (seq 0 n) in
+  maxl
+    [ ofb (s_restored sem);
+      ofb (negb static_enable || closeF (o_eps out) eps_model);
+      ofb (shifted_ok static_enable (nzval K) (s_Ksnz_f sem) diag' dsigns (o_eps out));
+      (if o_refactor_ok out then
+         maxl [ ofb (pivots_ok dyn_enable dyn_eps dyn_delta (s_Df sem) (s_psigns sem) regc (N.to_nat (s_pos sem)));
+                (if regc =? 0 then chk_ldl 8 nN perm Kcp Krv (s_Ksnz sem) (s_Lp sem) (s_Li sem) (s_Lx sem) (s_D sem)
+                 else chk_ldl_skip 8 nN perm Kcp Krv (s_Ksnz sem) (s_Lp sem) (s_Li sem) (s_Lx sem) (s_D sem) skip);
+                (* the first LDL solve reproduces b for the SHIFTED matrix *)
+                (match s_cands sem with
+                 | x0 :: _ => if (regc =? 0) && (List.length x0 =? n) then
+                                chk_solve 16 nN perm Kcp Krv (s_Ksnz sem) (s_Lp sem) (s_Li sem) (s_Lx sem) (s_D sem) (s_b sem) x0
+                              else 0%N
+                 | [] => 0%N
+                 end);
+                (if ir_enable then
+                   ofb (trace_ok reltol abstol stopratio (N.to_nat maxiter) (s_normb sem) (o_norm0 out) (o_steps out)
+                                 (o_solve_ok out) (s_cands_f sem) (o_x out))
+                 else 0%N);
+                (* recorded norms are truthful w.r.t. the UN-regularised K *)
+                ofb (forallb (fun xc => norm_truthful 8 n (colptr K) (rowval K) (s_Knz sem) (s_b sem) (fst xc) (snd xc))
+                             (combine (s_cands sem) (s_norms sem))) ]
+       else 0%N) ].
+
+(** the two levels together: B binding; A (bitwise identity with the transcribed-order model)
+    is information only (code 2) unless the case is a crafted exact-arithmetic one ([strict]) *)
+Definition c_driver2 (strict : bool) (K : spm (T:=float)) (dsigns : list Z) (diag perm : list N)
+           (dyn_enable : bool) (dyn_eps dyn_delta : float)
+           (static_enable : bool) (rconst rprop : float)
+           (b : list float) (ir_enable : bool) (reltol abstol stopratio : float) (maxiter : N)
+           (out : drv_out) (sem : drv_sem) : N :=
+  let cb := c_driver_sem K dsigns diag perm dyn_enable dyn_eps dyn_delta static_enable rconst rprop
+                         ir_enable reltol abstol stopratio maxiter out sem in
+  let ca := c_driver K dsigns diag perm dyn_enable dyn_eps dyn_delta static_enable rconst rprop
+                     b ir_enable reltol abstol stopratio maxiter out in
+  if negb (N.eqb cb 0) then 1%N
+  else if N.eqb ca 0 then 0%N
+  else if strict then 1%N else 2%N.
